@@ -170,7 +170,7 @@ func (w *workload) spawnStable(kind string) *stableG {
 		go parkCond(w.cond, &done, ready)
 		s.release = func() { w.condMu.Lock(); done = true; w.condMu.Unlock(); w.cond.Broadcast() }
 	case "accept":
-		s.fn, s.states = "parkAccept", []string{"IO wait"}
+		s.fn, s.states = "parkAccept", []string{"IO wait", "syscall"}
 		ln, err := net.Listen("tcp", "127.0.0.1:0")
 		if err != nil {
 			panic("HARNESS: " + err.Error())
@@ -321,6 +321,11 @@ func c20Library(w *workload) (states map[string]bool, n int, err error) {
 			if g.State == st {
 				okState = true
 			}
+		}
+		// Between announcing itself and actually parking (or while being woken by the
+		// scheduler) a goroutine is truthfully "runnable"/"running": nothing to judge then.
+		if g.State == "runnable" || g.State == "running" {
+			okState = true
 		}
 		if !okState {
 			return nil, 0, fmt.Errorf("goroutine %d is parked in %s but shows state %q (want one of %q)", s.id, s.fn, g.State, s.states)
@@ -524,7 +529,10 @@ func c20Oracle(c c20Case) error {
 				body, _ := io.ReadAll(resp.Body)
 				resp.Body.Close()
 				// every goroutine that existed around the request, plus the server's own
-				if err := c20CheckResponse(r, resp.StatusCode, resp.Header.Get("Content-Type"), body, len(w.stable), int(maxSeen.Load())+64); err != nil {
+				// Upper bound: the largest count sampled, plus every goroutine the churn can have
+				// alive at one instant (the sampler may miss a burst), plus the server's own.
+				upper := int(maxSeen.Load()) + c.Churn*(c.Burst+2) + 2*c.Clients + 64
+				if err := c20CheckResponse(r, resp.StatusCode, resp.Header.Get("Content-Type"), body, len(w.stable), upper); err != nil {
 					errs <- err
 					return
 				}
